@@ -160,6 +160,7 @@ func behNames(fs []*core.Fn) string {
 }
 
 func runC12(c *core.Ctx) {
+	eqNotSubset(c, "equality-is-not-inclusion")
 	selectionBeforePropagation(c, "replacement-reranks-stored-route", 3)
 	policyVerdictNotStored(c)
 	// the export-side replacement refreshes the window the session is entitled to
